@@ -1,0 +1,29 @@
+//go:build verif
+
+package kafka
+
+import (
+	"context"
+
+	"github.com/ozontech/file.d/metric"
+	"github.com/ozontech/file.d/pipeline"
+	"go.uber.org/zap"
+)
+
+// VerifNew builds a plugin around the given client without connecting to brokers.
+func VerifNew(config *Config, avgEventSize int, client KafkaClient, ctl *metric.Ctl) *Plugin {
+	p := &Plugin{
+		logger:       zap.NewNop().Sugar(),
+		config:       config,
+		avgEventSize: avgEventSize,
+		client:       client,
+	}
+	p.ctx, p.cancelFunc = context.WithCancel(context.Background())
+	p.registerMetrics(ctl)
+	return p
+}
+
+// VerifOut calls the batch output function the batcher workers call (verification only).
+func (p *Plugin) VerifOut(workerData *pipeline.WorkerData, batch *pipeline.Batch) error {
+	return p.out(workerData, batch)
+}
